@@ -130,13 +130,8 @@ Lemma settings_init y x kv m :
   fold_left a_init1 (acts_to x (settings_actions y kv)) (Z.of_N m) =
   Z.of_N (if side_eqb y x then fold_left (fun m p => if N.eqb (fst p) 4 then snd p else m) kv m else m).
 Proof.
-  revert m. induction kv as [|[i v] t IH]; intros m; simpl.
-  - destruct (side_eqb y x); reflexivity.
-  - unfold settings_actions in *. simpl. destruct (N.eqb i 4); simpl.
-    + unfold acts_to in *. simpl. destruct (side_eqb y x) eqn:E; simpl.
-      * rewrite IH. reflexivity.
-      * rewrite IH. reflexivity.
-    + apply IH.
+  rewrite fold_last_occ. unfold settings_actions, acts_to.
+  destruct (last_occ 4 kv); simpl; destruct (side_eqb y x); reflexivity.
 Qed.
 
 Lemma settings_quiet_but_init y kv x :
@@ -146,14 +141,9 @@ Lemma settings_quiet_but_init y kv x :
   /\ (forall x', flat_map (a_dir x') (settings_actions y kv) = [])
   /\ Forall wf_act (settings_actions y kv).
 Proof.
-  unfold settings_actions. induction kv as [|[i v] t (I1 & I2 & I3 & I4 & I5)]; simpl.
+  unfold settings_actions, acts_to. destruct (last_occ 4 kv); simpl.
+  - destruct (side_eqb y x); simpl; repeat split; auto; repeat constructor.
   - repeat split; auto.
-  - destruct (N.eqb i 4); simpl; [|exact (conj I1 (conj I2 (conj I3 (conj I4 I5))))].
-    unfold acts_to in *. simpl. destruct (side_eqb y x); simpl.
-    + split; [rewrite I1; reflexivity|]. split; [intros s; rewrite I2; reflexivity|].
-      split; [intros y' s; rewrite I3; reflexivity|]. split; [assumption|]. constructor; [exact I|assumption].
-    + split; [assumption|]. split; [assumption|].
-      split; [intros y' s; rewrite I3; reflexivity|]. split; [assumption|]. constructor; [exact I|assumption].
 Qed.
 
 Definition lab_on (y x : side) : bool := side_eqb y x.
